@@ -36,6 +36,10 @@ def gen_cases(tier, seed):
         yield {"kind": "late", "seed": "%d:late%d" % (seed, i), "impl": ("sync", "async")[i % 2], "api": APIS[(i // 2) % 3], "decode": bool((i // 6) % 2)}
     for i in range(300 if tier == "quick" else 6000):
         yield {"kind": "interleave", "seed": "%d:il%d" % (seed, i), "impl": ("sync", "async")[i % 2]}
+    # a device that writes far ahead of the acknowledgements: a long run of one stream's chunks is read (and parked) by another command's reader
+    for i, b in enumerate([1100, 1500, 40, 2500] if tier == "quick" else [1100, 1500, 40, 2500, 5000, 1024, 1025, 1026, 3000, 10000]):
+        for impl in ("sync", "async"):
+            yield {"kind": "burst", "burst": b, "impl": impl, "decode": bool(i % 2), "seed": "%d:burst%d" % (seed, b)}
     for i in range(n_random):
         yield {"kind": "rand", "i": i, "seed": "%d:%d" % (seed, i), "impl": ("sync", "async")[i % 2], "api": APIS[(i // 2) % 4], "decode": bool((i // 8) % 2),
                "cls": gen.CONTENT_CLASSES[(i // 16) % len(gen.CONTENT_CLASSES)]}
@@ -128,6 +132,62 @@ def run_interleave(case):
         sess.dispose()
 
 
+def run_burst(case):
+    """streaming_shell generator A is started, then shell B runs while the device pours `burst` chunks of A onto the wire: B's reader parks them all; A must still yield every chunk in order"""
+    from vlib import vclock
+    impl, decode, nb = case["impl"], case["decode"], case["burst"]
+    dims = {"maxdata": 4096, "remote": "random", "id_start": 0, "frag": "whole", "empty_rate": 0.0, "noise": []}
+    sess = gen.make_session(impl, dims, case["seed"])
+    stats = {"bytes_compared": 0, "chunks": nb + 1, "max_chunks": nb, "monitor_side_observations": 0, "burst_cases": 1, "max_parked_packets": 0}
+    viol = []
+    try:
+        sim = sess.sim
+        sim.window = 10 ** 9
+        chunks = [b"line %d\n" % k for k in range(nb)]
+        sim.scripts[b"shell:logcat"] = list(chunks)
+        sim.scripts[b"shell:getprop"] = [b"value"]
+        vclock.install(sess.clock)
+        g = sess.dev.streaming_shell("logcat", decode=decode)
+        got = []
+        if impl == "sync":
+            def nxt():
+                return next(g)
+            stop = StopIteration
+        else:
+            def nxt():
+                return sess.loop.run_until_complete(g.__anext__())
+            stop = StopAsyncIteration
+        got.append(nxt())
+        a_stream = sim.all_streams[-1]
+        # the adversary puts everything stream A has to say on the wire before anything else
+        sim.pick = lambda ready: next((i for i, (q, st_) in enumerate(ready) if st_ is a_stream), 0)
+        out = sess.call("shell", "getprop", decode=False)
+        try:
+            store = sess.dev._io_manager._packet_store
+            stats["max_parked_packets"] = sum(q.qsize() for d in store._dict.values() for q in d.values())
+        except AttributeError:
+            pass
+        where = "%s: streaming_shell A consumed 1 chunk, then shell B ran while the device wrote %d more chunks of A" % (impl, nb - 1)
+        if not out.ok or out.value != b"value":
+            viol.append({"mechanism": "burst-other-command", "detail": "%s: B gave %s" % (where, out.brief(80))})
+        try:
+            while True:
+                got.append(nxt())
+        except stop:
+            pass
+        except Exception as e:  # noqa
+            viol.append({"mechanism": "burst-raised:%s" % type(e).__name__, "detail": "%s: A raised %s after %d of %d chunks" % (where, str(e)[:80], len(got), nb)})
+        exp = [c.decode("utf8") for c in chunks] if decode else chunks
+        if not viol and got != exp:
+            k = next((i for i in range(min(len(got), len(exp))) if got[i] != exp[i]), min(len(got), len(exp)))
+            viol.append({"mechanism": "burst-wrong-output", "detail": "%s: A yielded %d chunks, the device wrote %d; first difference at chunk %d (%r)" % (where, len(got), nb, k, got[k] if k < len(got) else None)})
+        elif not viol:
+            stats["bytes_compared"] = sum(len(c) for c in chunks)
+        return {"sig": "burst|%s|%d|%s" % (impl, nb, decode), "violations": viol[:2], "stats": stats, "sample": {"case": case, "parked": stats["max_parked_packets"]}}
+    finally:
+        sess.dispose()
+
+
 def run_late(case):
     """an OPEN that the device answers only after the host gave up: the late answer must not leak into the next command"""
     impl, api, decode = case["impl"], case["api"], case["decode"]
@@ -177,6 +237,8 @@ def run_case(case):
         return run_interleave(case)
     if case["kind"] == "late":
         return run_late(case)
+    if case["kind"] == "burst":
+        return run_burst(case)
     api, decode, impl = case["api"], case["decode"], case["impl"]
     if case["kind"] == "comp":
         s = EXH_STRINGS[case["string"]]
